@@ -387,6 +387,8 @@ pub struct Monitor {
     /// the other side (the scenario proved they were superseded and processed)
     pub window_floor: [u64; 2],
     pub credit_floor: [u64; 2],
+    /// signature attached to every violation this monitor reports (known findings)
+    pub sig_context: String,
 }
 
 impl Monitor {
@@ -400,6 +402,7 @@ impl Monitor {
             keep_log: true,
             window_floor: [0, 0],
             credit_floor: [0, 0],
+            sig_context: String::new(),
         }
     }
 
@@ -441,7 +444,7 @@ impl Monitor {
     }
 
     fn viol(&self, d: usize, kind: &str, msg: String) {
-        sim::violation(kind, format!("{}: {}", self.names[d], msg));
+        sim::violation_sig(kind, &self.sig_context, format!("{}: {}", self.names[d], msg));
     }
 
     fn on_item(&mut self, st: &Stamped) {
